@@ -550,6 +550,7 @@ class Builtins:
             return self.slist_append(args[0], args[1], node)
         self.ctx.mutating()
         self._clist(args[0], node).append(args[1])
+        self.ctx.cell_write(args[0].addr, "append", node)
         return NONE
 
     def bi_list_extend(self, args, kwargs, node):
@@ -557,6 +558,7 @@ class Builtins:
             return self.slist_extend(args[0], args[1], node)
         self.ctx.mutating()
         self._clist(args[0], node).extend(self.iter_concrete(args[1], node))
+        self.ctx.cell_write(args[0].addr, "extend", node)
         return NONE
 
     def bi_list_copy(self, args, kwargs, node):
@@ -568,6 +570,7 @@ class Builtins:
         if args[0].kind == "slist":
             return self.slist_pop(args[0], args[1] if len(args) > 1 else None, node)
         self.ctx.mutating()
+        self.ctx.cell_write(args[0].addr, "pop", node)
         items = self._clist(args[0], node)
         i = args[1] if len(args) > 1 else VInt(-1)
         idx = self.norm_index(i, len(items), node)
@@ -643,6 +646,7 @@ class Builtins:
 
     def bi_dict_update(self, args, kwargs, node):
         self.ctx.mutating()
+        self.ctx.cell_write(args[0].addr, "update", node)
         ks, vs = self.ctx.cell(args[0])
         oks, ovs = self.ctx.cell(args[1])
         for k, v in zip(oks, ovs):
